@@ -171,7 +171,13 @@ class PropsDriver:
                 setattr(self.o, DECL[pid][5], concrete(pid, 0))
         for pid in LAYOUTS[layout]['order']:
             setattr(self.twin, DECL[pid][5], concrete(pid, 3))
+        # the object was first offered on another connection of the process and withdrawn from it again after this
+        # connection had taken it over: what it announces goes out here
+        self.conn0 = Conn()
+        self.h0 = objects.DBusObjectHandler(self.conn0)
+        self.h0.exportObject(self.o)
         self.h.exportObject(self.o)
+        self.h0.unexportObject('/obj')
         del self.conn.sent[:]
         self.reply = {'k': 'none'}
         self.sigs = ()
